@@ -64,6 +64,7 @@ Call(m, t, c) ==
             [] c.api = "CL" -> [m EXCEPT !.calls[t] = base]
             [] c.api = "WC" -> [m EXCEPT !.calls[t] = base]
             [] c.api = "SD" -> [m EXCEPT !.calls[t] = base, !.dl = c.dl]
+            [] c.api = "XC" -> [m EXCEPT !.calls[t] = base]      \* Close(): allowed at any moment, writes nothing
             [] OTHER -> Fail(m)
 
 (***************************************************************************)
@@ -145,6 +146,7 @@ Ret(m, t, e, late) ==
   IF m.bad THEN m
   ELSE IF ~c.active \/ late THEN Fail(m)                   \* WCBoundedWait: `late` is measured by the harness
   ELSE IF c.api = "SD" THEN (IF IsNil(e) THEN m2 ELSE Fail(m))
+  ELSE IF c.api = "XC" THEN (IF ~c.wrote THEN m2 ELSE Fail(m))
   ELSE IF c.dead THEN
        \* AfterCloseAllFail / FailStop: started after the close or the failure
        \* (a WriteControl with a finite deadline may instead report that it could not get the
